@@ -81,11 +81,14 @@ static void gen_args(cx_buf *b, int depth, int weak_allowed)
 static void gen_call(cx_buf *b, int depth, int weak_allowed)
 {
     int r = (int) vh_below(100);
-    if (r < 22) { cx_buf_adds(b, "%get("); cx_buf_adds(b, KEYS[vh_below(NKEYS)]); cx_buf_addc(b, ')'); }
+    if (r < 6) { cx_buf_adds(b, "%get("); cx_buf_adds(b, KEYS[vh_below(NKEYS)]); cx_buf_addc(b, ' '); gen_word(b); cx_buf_addc(b, ')'); vh_count("get_with_default", 1); }
+    else if (r < 22) { cx_buf_adds(b, "%get("); cx_buf_adds(b, KEYS[vh_below(NKEYS)]); cx_buf_addc(b, ')'); }
     else if (r < 44) {
         cx_buf_adds(b, "%put("); cx_buf_adds(b, KEYS[vh_below(NKEYS)]); cx_buf_addc(b, ' ');
         int q = (int) vh_below(100);
-        if (q < 60) gen_word(b);
+        if (q < 8) { cx_buf_adds(b, "\"\""); vh_count("put_empty_quoted_value", 1); }
+        else if (q < 16) { cx_buf_addc(b, '"'); gen_word(b); cx_buf_addc(b, ' '); gen_word(b); cx_buf_addc(b, '"'); vh_count("put_quoted_value", 1); }
+        else if (q < 60) gen_word(b);
         else if (q < 75 && depth < 3) gen_call(b, depth + 1, weak_allowed);
         else if (q < 85) gen_var(b, 0);
         else { gen_word(b); }
